@@ -1817,7 +1817,7 @@ class EventType(VersionedOntologyElement, MutableMapping):
         # are the events that can potentially conflict.
         events_by_version = defaultdict(list)
         for event in events:
-            events_by_version[event.get_any(version_property)].append(event)
+            events_by_version[int(event.get_any(version_property))].append(event)
 
         # Now check the event sets that share a single version.
         for version, version_events in events_by_version.items():
